@@ -59,7 +59,7 @@ theorem C10_invalid_reverts :
         HasType t v ∧ bs = encode t v ++ r) := by
   refine ⟨?_, ?_, fun t bs v r h => decode_sound_aux t bs v r h⟩
   · intro b r h0 h1
-    simp [decode, decodeBoolByte, CodecTrivial.boolDecode, h0, h1]
+    simp [decode, decodeBoolByte, h0, h1]
   · intro ts tag r hl ht
     have : tag % 256 ^ 8 = tag := Nat.mod_eq_of_lt (by simpa using ht)
     simp [decode, takeNat_append, this, decodeVariant_unknown_tag ts tag tag r hl]
@@ -74,6 +74,12 @@ theorem C10_fastpath_encode_partial {t : Ty} (hn : noTrivialEnum t = true) (v : 
     simp only [Bool.and_eq_true] at hc
     exact runtimeBytes_of_trivial hn hc.2 h
   · exact slowEncode_eq t v hn h
+
+/-- The decoder as implemented — `bool::abi_decode` with the validity check the translator found in `codec.sw`, the
+generated enum decoder with its `_ => __revert(0)` arm — is the canonical decoder: in particular it rejects every
+invalid pattern (`C10_invalid_reverts`). Breaks when the check is removed from the sources. -/
+theorem C10_decoder_validates (t : Ty) (bs : List UInt8) : slowDecode t bs = decode t bs :=
+  slowDecode_eq t bs
 
 /-- The predicate the driver evaluates on the real memory bytes is the property's statement for one value. -/
 theorem C10_prop_of_model (t : Ty) (v : Val) (trivE trivD : Bool) (mem : List UInt8) :
